@@ -273,6 +273,19 @@ def run(ctx):
                           "the cut-off index is computed in integer arithmetic", "the cut-off index is a truncated inexact floating value (%s)" % f.text(init)[:120])
     ctx.counters["discretised_fractions"] = n_disc
     ctx.floor("discretised_fractions", 1, "ceil/floor sites or integer cut-off in the ranking scope (growing_size_percentile cut-off)")
+    # percent thresholds (kill_by_swap_usage 'threshold=N%'): the conversion the plugins' parsers delegate to is exact
+    pp = ctx.fn1("Oomd::Util::parseSizeOrPercent")
+    users = [f for f in fns if f.calls("Util::parseSizeOrPercent")]
+    ctx.counters["percent_threshold_parsers"] = len(users)
+    ctx.floor("percent_threshold_parsers", 1, "kill-plugin argument parsers that delegate to Util::parseSizeOrPercent")
+    ctx.use(pp)
+    outw = [i for i, n in enumerate(pp.nodes) if n["k"] == "bin" and n.get("op") == "=" and pp.pos_of(i) is not None and pp.text(n["l"]).replace(" ", "") in ("*output", "(*output)")]
+    for i in outw:
+        e = exactness(pp, pp.nodes[i]["r"])
+        ctx.check(e in ("INT", "QUOT"), "percent-threshold-exact@%d" % pp.nodes[i].get("line", 0), "E-TYPE exactness domain (INT/QUOT/INEXACT)", pp.loc(i),
+                  "the threshold in bytes is computed exactly (at most one truncating division, as the last step)",
+                  "'%s' divides before it multiplies: 'N%%' of a total that is not a multiple of the divisor comes out too low and a cgroup exactly at the "
+                  "threshold passes the 'above threshold' filter" % pp.text(pp.nodes[i]["r"])[:80])
     # min_growth_ratio_ destination is floating
     kc = P.classes.get("Oomd::KillMemoryGrowth<Oomd::BaseKillPlugin>") or next((c for q, c in P.classes.items() if q.startswith("Oomd::KillMemoryGrowth")), None)
     if kc:
